@@ -9,6 +9,7 @@
      6. attribute, RDN ('+') and name (',') structure; the round trip and its consequences *)
 From Coq Require Import ZifyN ZifyNat ZifyBool Lia.
 From Coq Require Import DecimalFacts DecimalPos DecimalN.
+From Coq Require Import Permutation.
 From WI Require Import Lib.Base Lib.Info Lib.Utf8 Lib.Rfc4514 Model.Dn.
 Open Scope N_scope.
 (* lia may use the Euclidean equations of / and mod by constants (UTF-8 bit fields, hex digits) *)
@@ -1021,3 +1022,76 @@ Lemma multibyte_positions :
   escape_gen true (utf8 [35; 769]) = utf8 [92; 35; 769] /\
   escape_gen true (utf8 [8364; 32; 32]) = utf8 [8364; 32; 92; 32].
 Proof. repeat split; vm_compute; reflexivity. Qed.
+
+(* ---------- several names in one process: nothing is carried from one to the next ---------- *)
+Lemma render_loop_map ns : forall out, render_loop out ns = out ++ map render_dn ns.
+Proof.
+  induction ns as [|n ns IH]; intro out; cbn [render_loop map]; [now rewrite app_nil_r|].
+  rewrite IH, <- app_assoc. reflexivity.
+Qed.
+
+(* rendering a list of names is the map of rendering one name *)
+Lemma render_all_map ns : render_all ns = map render_dn ns.
+Proof. unfold render_all. now rewrite render_loop_map. Qed.
+
+Lemma render_raw_loop_map ns : forall out,
+  render_raw_loop out ns = out ++ map (fun n => from_raw_dn (fst n) (snd n)) ns.
+Proof.
+  induction ns as [|n ns IH]; intro out; cbn [render_raw_loop map]; [now rewrite app_nil_r|].
+  rewrite IH, <- app_assoc. reflexivity.
+Qed.
+
+Lemma render_all_raw_map ns : render_all_raw ns = map (fun n => from_raw_dn (fst n) (snd n)) ns.
+Proof. unfold render_all_raw. now rewrite render_raw_loop_map. Qed.
+
+(* hence the k-th text depends on the k-th name only ... *)
+Lemma render_all_nth ns k : nth_error (render_all ns) k = option_map render_dn (nth_error ns k).
+Proof. rewrite render_all_map. apply nth_error_map. Qed.
+
+(* ... a name has the same text wherever and however often it occurs, whatever was rendered
+   before it or between its occurrences ... *)
+Lemma render_all_position pre post pre' post' n :
+  nth_error (render_all (pre ++ n :: post)) (length pre) = Some (render_dn n) /\
+  nth_error (render_all (pre' ++ n :: post')) (length pre') = Some (render_dn n).
+Proof.
+  split; rewrite render_all_nth, nth_error_app2, Nat.sub_diag by lia; reflexivity.
+Qed.
+
+Lemma render_all_repeat pre mid post n :
+  nth_error (render_all (pre ++ n :: mid ++ n :: post)) (length pre) = Some (render_dn n) /\
+  nth_error (render_all (pre ++ n :: mid ++ n :: post)) (length pre + 1 + length mid) = Some (render_dn n).
+Proof.
+  split; rewrite render_all_nth.
+  - rewrite nth_error_app2, Nat.sub_diag by lia. reflexivity.
+  - rewrite nth_error_app2 by lia.
+    replace (length pre + 1 + length mid - length pre)%nat with (S (length mid)) by lia.
+    cbn [nth_error]. rewrite nth_error_app2, Nat.sub_diag by lia. reflexivity.
+Qed.
+
+(* ... and reordering the names reorders the texts the same way *)
+Lemma render_all_perm ns ms : Permutation ns ms -> Permutation (render_all ns) (render_all ms).
+Proof. rewrite !render_all_map. apply Permutation_map. Qed.
+
+(* every text of the sequence reads back as its own name *)
+Lemma render_all_roundtrip ns : Forall name_ok ns ->
+  map parse_rdns (render_all ns) = map reads_as ns.
+Proof.
+  intro H. rewrite render_all_map, map_map. apply map_ext_in. intros n Hn.
+  apply roundtrip_rdns. rewrite Forall_forall in H. now apply H.
+Qed.
+
+Lemma render_all_raw_roundtrip (ns : list decoded_name) : Forall (fun n => name_ok (snd n)) ns ->
+  map parse_rdns (render_all_raw (map as_raw ns)) = map (fun n => reads_as (snd n)) ns.
+Proof.
+  intro H. rewrite render_all_raw_map, !map_map. apply map_ext_in. intros n Hn.
+  unfold as_raw. cbn [fst snd]. apply (roundtrip_rdns (snd n)). rewrite Forall_forall in H. now apply H.
+Qed.
+
+(* the witnesses of the seeded attribute cache (key: dotted OID followed by the value, no
+   separator): 2.5.4.5 = "0123" then 2.5.4.50 = "123"; both orders, one name, two names *)
+Definition serial_0123 : atv := ([2; 5; 4; 5], GStr (bs "0123")).
+Definition member_123 : atv := ([2; 5; 4; 50], GStr (bs "123")).
+Lemma colliding_names_text :
+  render_all [[[serial_0123]]; [[member_123]]; [[serial_0123]]; [[member_123; serial_0123]]]
+  = [bs "serialNumber=0123"; bs "uniqueMember=123"; bs "serialNumber=0123"; bs "uniqueMember=123+serialNumber=0123"].
+Proof. vm_compute. reflexivity. Qed.
